@@ -420,6 +420,15 @@ def make_strategy(script: dict):
         def on_close_position(self, order):
             prev = self._enter_hook('on_close_position')
             try:
+                if self.s.get('on_close_broker') and self.exchange_type != 'spot':
+                    # a fresh resting order placed through the broker from the callback of the closing fill
+                    dec = self.s.get('qty_dec', 3)
+                    qa = max(round(self._qty() * 0.5, dec), 10 ** -dec) if hasattr(self, '_qty') else 10 ** -dec
+                    px = float(self.price)
+                    if self.rnd('ocb') < 0.5:
+                        self.broker.buy_at(qa, self._px(px * (1 - 0.004)))
+                    else:
+                        self.broker.sell_at(qa, self._px(px * (1 + 0.004)))
                 self._observe('on_close_position', o=TR.oid(order))
                 self._maybe_raise('on_close_position')
             finally:
@@ -512,6 +521,13 @@ def make_strategy(script: dict):
                                     self.take_profit = rows
                                 else:
                                     self.stop_loss = rows
+                    elif kind in ('partial_market_sl', 'partial_market_tp') and self.exchange_type != 'spot':
+                        # a single exit row at EXACTLY the current price for part of the position (a partial exit at the market)
+                        half = self._split(q, 2)[0]
+                        if kind == 'partial_market_sl':
+                            self.stop_loss = [(half, price)]
+                        else:
+                            self.take_profit = [(half, price)]
                     elif kind == 'double_market_exit' and self.exchange_type != 'spot':
                         # two exits at the current price in one step: a full-size stop-loss and a half-size take-profit both
                         # become MARKET orders; the first one closes the position while the second is still pending
